@@ -66,6 +66,18 @@ def extra_classes():
             mk(f"hashvars {f1}{f2} copy", ns(), lambda s: (setattr(s, "a", s.b), setattr(s, "g", s.a)))
             mk(f"hashvars {f1}{f2} arith", ns(), lambda s: (setattr(s, "g", s.a + s.b), setattr(s, "b", s.g * 3),
                                                              setattr(s, "loc", s.b), setattr(s, "g", s.loc)))
+    # in-place adds (atomic: the kernel insists on natural alignment) on variables that follow a variable of several
+    # elements whose size is not a power of two (found by C08's thorough tier: F47)
+    for multi in ("3H", "3B", "5B", "3I", "7H"):
+        for f in "IiQqx":
+            def ns(multi=multi, f=f):
+                m = ArrayMap()
+                return dict(m=m, arr=m.globalVar(multi), v=m.globalVar(f), tail=m.globalVar("B"))
+
+            def body(s):
+                s.v += 3
+                s.v -= 1
+            mk(f"array {multi} then {f}: in-place add", ns(), body)
     for kf, vf in (("I", "q"), ("H", "I"), ("Q", "B")):
         K = type("K", (Structure,), dict(a=Member(kf)))
         V = type("V", (Structure,), dict(b=Member(vf), c=Member(vf)))
